@@ -180,7 +180,7 @@ pub fn run(ctx: &mut RunCtx) {
     pa.ops = 1..4;
     pa.ws = 1..5;
     pa.w_compact = 1;
-    let cases = ctx.tier.pick(15_000, 1_500_000);
+    let cases = ctx.tier.pick(60_000, 1_500_000);
     let excl = Excl::default();
     let skip_stray = ctx.has_open("open-fails:stray-record");
     ctx.explore(
@@ -194,7 +194,7 @@ pub fn run(ctx: &mut RunCtx) {
     );
     // long logs: the base log is hundreds of KiB (reader buffers, block boundaries) with record
     // sizes that vary from case to case, so that record headers fall on every alignment
-    let lcases = ctx.tier.pick(400, 6000);
+    let lcases = ctx.tier.pick(1200, 6000);
     ctx.explore(
         "long-logs",
         "base log of 30-90 transactions, each creating a node with a string property of a generated length (100-3000 bytes), i.e. 60-250 KiB of log with record headers at varying offsets (also straddling 64 KiB boundaries); one generated tail; same oracle; non-trivial as in `tails`",
